@@ -166,7 +166,11 @@ def _record(args):
                 comp.insert(rng.randint(lo, len(comp)), {'k': rng.choice(['scope', 'amp'])})
                 if rng.random() < 0.3:
                     comp.insert(rng.randint(lo, len(comp)), {'k': rng.choice(['root', 'empty'])})
-            css = selmod.selector_list(ast)
+            selmod.SPELL = random.Random(rng.getrandbits(32))        # the call is made with a random respelling of the selector
+            try:
+                css = selmod.selector_list(ast)
+            finally:
+                selmod.SPELL = None
             obj = sv.compile(css)
             for en, ep in enumerate(('select', 'iselect', 'select_one', 'match', 'filter', 'filter_iter', 'closest') + (('closest',) * 4 if k % 2 else ())):
                 t = rng.choice(els + ([0] if d['top'] == 'doc' else []))
@@ -174,7 +178,7 @@ def _record(args):
                 lim = rng.choice([0, 0, 1, 2, 3, -1])
                 items = [rng.randrange(1, n + 1) for _ in range(rng.randint(0, 5))]
                 ev = {'id': '%d.%d.%d.%s%d' % (seed, k, j, ep, en), 'doc': d, 'sel': ast, 'nsmap': [], 'ep': ep,
-                      'target': t, 'limit': lim, 'items': items, 'css': css}
+                      'target': t, 'limit': lim, 'items': items, 'css': css, 'text': common.cps(css)}
                 try:
                     if ep == 'select':
                         out = [idmap[id(x)] for x in obj.select(tnode, lim)]
@@ -209,6 +213,12 @@ def trace_part(chk, tier):
         outs = pool.map(_record, [(common.SEED * 1000 + 31 * p + 5, ndocs, nsel) for p in range(nproc)])
     lines = [l for o in outs for l in o]
     trace.validate(chk, lines, 'Trace_Api', 'trace-api')
+    # the same calls as views of the relation the implementation-shaped pipeline computes from the TEXT (Trace_ApiPipe)
+    from harness import statedefs, tlc
+    import os
+    if not os.path.basename(tlc.SPEC_DIR).startswith('verif_spec_'):
+        statedefs.use_tree_under_test()
+    trace.validate(chk, lines if tier == 'thorough' else lines[::2], 'Trace_ApiPipe', 'trace-api-pipe', batch=400)
     import json
     e = json.loads(lines[3])
     chk.sample({'trace_event': {k: e[k] for k in ('ep', 'css', 'target', 'limit', 'items', 'out')}}, cap=14)
